@@ -6,6 +6,7 @@ import c02
 
 CONFIGS = ['prod', 'release']
 EXPLANATION = (
+    "G6: no value drawn from an atomic counter narrower than 64 bits identifies a registration (it would repeat after a wrap-around). "
     "BUILD PARITY: the black-box and white-box registry summaries are evaluated on the facts of the RELEASE build of datacake-rpc as well (debug assertions off: whatever is written inside debug_assert! / cfg(debug_assertions) is absent), with the same expectations. "
     "G5.SEM: every function to_uri_path passes a service name / message path through is interpreted on a text of three symbolic characters (every test on a character an oracle explored both ways): the result is a per-character substitution - no character dropped, merged or moved - so names that differ only in punctuation keep different URIs. "
     "SEM, black box (abstract interpretation of the MIR, no code runs): every sequence of up to three Server::add_service / remove_service calls (two services, one re-added "
@@ -272,11 +273,58 @@ def check_G4(ctx, facts):
                'missing handler -> Status::unavailable' if unavailable else 'a missing handler is not reported as Status::unavailable')
 
 
+def check_G6(ctx, facts, rule='C13.G6'):
+    """G6: whatever the registry uses to tell one registration from another must not repeat within the life of a server.  An id drawn from
+    an atomic counter NARROWER than 64 bits wraps after 2^8 / 2^16 / 2^32 registrations: a later registration then carries the id of an
+    earlier one that is still registered, and removing / replacing it removes the other service's handlers too.  Reported when the value
+    of a `fetch_add` / `fetch_update` on an AtomicU8 / U16 / U32 (I8 / I16 / I32) in the RPC crate is stored into a structure or compared
+    for equality.  Expected count zero.  (Round 8, C13i.)"""
+    n = 0
+    hits = []
+    for b in facts.bodies.values():
+        if b.crate != 'datacake_rpc' or b.d['promoted'] or b.derived:
+            continue
+        srcs = []
+        for _blk, t in b.calls():
+            n_ = str(t.get('callee') or cname(t) or '')
+            m = re.search(r'atomic::Atomic(U8|U16|U32|I8|I16|I32)::(fetch_add|fetch_sub|fetch_update|swap)$', n_) or \
+                re.search(r'atomic::Atomic(?:::)?<([ui](?:8|16|32))>::(fetch_add|fetch_sub|fetch_update|swap)$', n_)      # (generic `Atomic<T>` on newer toolchains)
+            if m:
+                srcs.append((t['dest']['l'], m.group(1).upper(), t))
+        if not srcs:
+            continue
+        n += len(srcs)
+        fl = Flow(b, all_calls=True)
+        for l, width, t in srcs:
+            der = fl.forward([l])
+            stored = False
+            for _b, _j, s_ in b.assigns():
+                rv = s_['rv']
+                if rv['k'] == 'aggregate' and any(op_local(o) in der for o in rv['ops']):
+                    stored = True
+                if rv['k'] == 'bin' and rv['op'] in ('Eq', 'Ne') and (op_local(rv['a']) in der or op_local(rv['b']) in der):
+                    stored = True
+            for _blk, t2 in b.calls():
+                n2 = cname(t2) or ''
+                if re.search(r'(BTreeMap|HashMap|BTreeSet|HashSet)(<.*>)?::(insert|entry|remove|contains|contains_key|get)$', n2) and any(op_local(a) in der for a in t2['args'][1:]):
+                    stored = True
+            if stored:
+                hits.append((b, t, width))
+    for b, t, width in hits:
+        ctx.bad(rule, 'narrow-id-counter|%s' % strip_generics(b.name), site(b, t['cs']),
+                'a registration is identified by a value drawn from an Atomic%s counter: it wraps after 2^%s registrations, a later registration then shares the id of an earlier one '
+                'that is still registered — removing or replacing it removes the other service\'s handlers too (served although removed / refused although registered)'
+                % (width, width[1:]))
+    if not hits:
+        ctx.ok(rule, 'narrow-id-counter|none', '', '%d narrow atomic counter update(s) in the RPC crate, none identifies a registration' % n, nontrivial=False)
+
+
 def check(ctx):
     facts = ctx.facts('prod')
     cg = CallGraph(facts)
     # G5.SEM: the registry summaries take to_uri_path for an injective term U(service, path); what it applies to a name before formatting
     # it is interpreted on symbolic text (names_abs): a per-character substitution, nothing dropped, merged or moved
+    check_G6(ctx, facts)
     import names_abs
     names_abs.check_names(ctx, facts, 'C13.G5.SEM')
     # SEM: the registry's add / remove / lookup summarised per (service, key) over its finite abstract state (registry_abs);
